@@ -166,6 +166,18 @@ CLAIMED = {
             'explored for n_iter = 1..3 with calculate_specific_ground_range by contract; final mass > 0 assumed (convergence '
             'test divides by it)',
             'contract-based deductive verification with spec functions (AST->z3)', 'DESIGN 2 C19'),
+    'C14': ('other',
+            'Deductive part: Filter.to_sql and its helpers are executed for all 4096 presence combinations of the twelve spatial '
+            'attributes and all 64 of the simple ones (values symbolic): the compatibility rule accepts exactly the documented '
+            'combinations, no internal error (empty filter included), placeholders and parameters aligned; Query / CountQuery / '
+            'FrequentFlightQuery.to_sql with symbolic optional parameters: validation rules, the documented date (end date inclusive '
+            '= before next midnight UTC), sampling, every-n-th, limit/offset conditions and parameter values; value semantics '
+            '(second to_sql equal, earlier result not mutated); every Database.__call__ gets its own cursor. Bounded part: what the '
+            'SQL means is checked on the shipped test database against a Python evaluation of the predicate (date boundaries, '
+            'ranges, spatial filters, every-n-th, limit/offset, counts, frequent routes, interleaved executions).',
+            'SQLite evaluation of the generated SQL and the schema are trusted / bounded; date arithmetic in whole days; strings '
+            'abstracted by their placeholder count',
+            'contract-based deductive verification of SQL construction + bounded database stand-in', 'DESIGN 2 C14'),
 }
 REASONS_TODO = 'check not built yet (work in progress; see DESIGN.md section 2)'
 
